@@ -737,6 +737,195 @@ def run_until_family(ctx, cases):
 
 
 # ------------------------------------------------------------------------------------------------
+# ORACLE-ONLY family `span`: the third clause over everything the kernel checks C01-C07 span
+#
+# "A RealtimeEnvironment executes exactly the same event sequence with the same values as an Environment given the same program."
+# The families above drive the environment by step() (and by run(until=<number>)); a *program* also calls run(), run(until=<event>)
+# - with processes that start to wait for the until-event only after run() was entered, so that their resumption is listed behind
+# run()'s own stop callback -, run(until=<number>) and step() in any sequence, catches what a piece raises and carries on.  Here a
+# sample of ALL shapes of the kernel program generator (harness/kprops.gen_cases: the generic profiles, interrupt victims, condition
+# chains, same-instant decisions, launchers, acks, resources, stores, each also under a split plan; the until-fail / until-react /
+# crash plans) is executed by `kscript.Runner.run()` - the very driver of C01-C07 - once on an Environment and once on a
+# RealtimeEnvironment under a virtual wall clock that gives no cause for a lateness error (non-strict: every reading of the clock
+# may burn some wall time; strict: the clock only moves while step() sleeps, so the lag is never above 0 <= factor).  The complete
+# traces - resumptions with values and exceptions, probe callbacks, resource snapshots, what every run()/step() piece returned or
+# raised, the final `now` - must be equal line for line.  On top (first clause, at every observation a process body makes, also inside
+# run(until=event) and run()): the wall clock has reached real_start + (now - initial_time) * factor.
+
+from harness import kprops
+
+SPAN_SPEC = [(3, 'time'), (2, 'outcome'), (2, 'intr'), (2, 'cond'), (2, 'victim'), (1, 'chain'), (1, 'decided'), (1, 'launcher'), (1, 'ack'),
+             (2, 'res'), (2, 'store'),
+             (2, 'plan:time'), (2, 'plan:outcome'), (1, 'plan:cond'), (1, 'plan:intr'), (1, 'plan:victim'), (1, 'plan:chain'), (1, 'plan:launcher'),
+             (1, 'plan:res'), (1, 'plan:store'), (3, 'untilfail'), (3, 'untilreact'), (2, 'crashplan')]
+SPAN_CLOCK_BUDGET = 400000
+
+
+class FreeClock:
+    """a wall clock that never makes the run late by more than the burns it is given: `monotonic()` burns the next amount of the
+    (cyclic) list, `sleep(d)` lasts exactly d"""
+
+    def __init__(self, start, burns):
+        self.t, self.burns, self.k, self.calls, self.nsleep = start, list(burns), 0, 0, 0
+
+    def monotonic(self):
+        self.calls += 1
+        if self.calls > SPAN_CLOCK_BUDGET:
+            raise ClockBudget()
+        if self.burns:
+            self.t = self.t + self.burns[self.k % len(self.burns)]
+            self.k += 1
+        return self.t
+
+    def sleep(self, d):
+        self.calls += 1
+        if self.calls > SPAN_CLOCK_BUDGET:
+            raise ClockBudget()
+        self.nsleep += 1
+        if d > 0:
+            self.t = self.t + d
+
+
+class SpanRunner(kscript.Runner):
+    """kscript.Runner that also counts (oracle-only) the shapes the family is about, and - on the paced environment - records the
+    wall clock at every observation of a process body"""
+
+    def __init__(self, case, env, clk=None, base=None):
+        super().__init__(case, env)
+        self.clk, self.base, self.seen = clk, base, []
+        self.shape = collections.Counter()
+        self.cur_until = None
+        inner = env.run
+
+        def run(until=None):
+            # an instance attribute in front of the public method: remembers which event the current run() waits for
+            self.cur_until = until if hasattr(until, 'callbacks') else None
+            self.shape['run(until=event)' if self.cur_until is not None else ('run()' if until is None else 'run(until=number)')] += 1
+            try:
+                return inner(until)
+            finally:
+                self.cur_until = None
+        env.run = run
+
+    def hook(self, what, *a):
+        if what == 'yield' and self.cur_until is not None and a[1] is self.cur_until and a[1].callbacks is not None:
+            self.shape['late waiter: a process starts to wait for the until-event after run(until=event) was entered'] += 1
+        return None
+
+    def log(self, name, what, v):
+        if self.clk is not None:
+            self.seen.append((self.env.now, self.clk.t))
+        super().log(name, what, v)
+
+
+def gen_span(rng, n):
+    cases = kprops.gen_cases(rng, SPAN_SPEC, n)
+    out = []
+    for i, kc in enumerate(cases):
+        factor = rng.choice(FACTORS) if rng.random() < 0.8 else round(rng.uniform(0.05, 3), rng.choice([1, 2, 16]))
+        strict = rng.random() < 0.4
+        initial = 0
+        if kc.mode == 'step' and rng.random() < 0.3:
+            initial = rng.choice(INITIALS)
+        burns = [] if strict else [rng.choice([0, 0, 0, 0.03125, 0.25, 1, 3]) * factor for _ in range(rng.randint(0, 5))]
+        out.append({'cid': f'k{i}', 'family': 'span', 'kind': kc.kind, 'kernel': kc.to_json(), 'initial': initial, 'factor': factor, 'strict': strict,
+                    'clock': {'start': rng.choice([0, 100, 1000.5, 12345.678, rng.uniform(0, 1e5)]), 'burns': burns}})
+    return out
+
+
+def run_span(case):
+    """the program under kscript.Runner.run() on Environment and on RealtimeEnvironment; returns (plain runner, rt runner, base, error)"""
+    kc = Case.from_json(case['kernel'])
+    plain = SpanRunner(kc, Environment(case['initial']))
+    plain.run()
+    clk = FreeClock(case['clock']['start'], case['clock']['burns'])
+    old = (rtmod.monotonic, rtmod.sleep)
+    rtmod.monotonic, rtmod.sleep = clk.monotonic, clk.sleep
+    err = None
+    try:
+        env = RealtimeEnvironment(initial_time=case['initial'], factor=case['factor'], strict=case['strict'])
+        base = clk.t                    # the property's real_start: the wall clock at creation (no sync() in this family)
+        rt = SpanRunner(Case.from_json(case['kernel']), env, clk, base)
+        try:
+            rt.run()
+        except ClockBudget:
+            err = 'clock-budget'
+    finally:
+        rtmod.monotonic, rtmod.sleep = old
+    return plain, rt, base, err
+
+
+def oracle_span(case, plain, rt, base, err):
+    fails = []
+    f, ini = case['factor'], case['initial']
+    if err:
+        return [{'what': f'the sleep loop did not terminate within {SPAN_CLOCK_BUDGET} clock calls although every sleep(d) lasts d',
+                 'signature': 'sleep-loop-diverges'}]
+    a, b = rt.lines, plain.lines
+    if a != b:
+        d = first_diff(a, b)
+        late = rt.shape['late waiter: a process starts to wait for the until-event after run(until=event) was entered'] + \
+            plain.shape['late waiter: a process starts to wait for the until-event after run(until=event) was entered']
+        fails.append({'what': f'the same program (kernel generator shape `{case.get("kind")}`, driven by '
+                              f'{"step() until exhausted" if case["kernel"]["mode"] == "step" else "the plan " + str(case["kernel"]["plan"]) + " then run()"}) '
+                              f'gives different traces on RealtimeEnvironment (factor {f}, strict {case["strict"]}, clock never late) and Environment, '
+                              f'first at line {d[0]}: rt `{d[1]}` plain `{d[2]}`'
+                              + (f' ({late} process(es) started to wait for the until-event after run(until=event) was entered)' if late else ''),
+                      'signature': 'rt-trace-differs'})
+    for now, wall in rt.seen:
+        if wall < base + (now - ini) * f:
+            fails.append({'what': f'a process body observed now == {now} at wall clock {wall} < {base + (now - ini) * f} = real_start {base} + ({now} - {ini}) * {f} '
+                                  f'(program driven by {"step()" if case["kernel"]["mode"] == "step" else "the plan " + str(case["kernel"]["plan"])})',
+                          'signature': 'observed-early'})
+            break
+    return fails
+
+
+def run_span_family(ctx, cases):
+    orc, hist, nontriv, samples, lines = [], collections.Counter(), 0, [], 0
+    saved = (rtmod.monotonic, rtmod.sleep)
+    for c in cases:
+        try:
+            with quiet():
+                plain, rt, base, err = run_span(c)
+        finally:
+            rtmod.monotonic, rtmod.sleep = saved
+        fails = oracle_span(c, plain, rt, base, err)
+        lines += len(rt.lines)
+        hist['kind:' + str(c.get('kind'))] += 1
+        hist['strict' if c['strict'] else 'non-strict'] += 1
+        hist['initial_time!=0'] += int(c['initial'] != 0)
+        hist['clock burns wall time at its readings'] += int(any(c['clock']['burns']))
+        hist['sleep calls'] += rt.clk.nsleep
+        hist['observations by process bodies (pacing judged)'] += len(rt.seen)
+        for k, v in plain.shape.items():
+            hist['shape:' + k] += v
+        for l in plain.lines:
+            if l.startswith('X '):
+                hist['piece raised:' + l.split(' ')[1]] += 1
+            elif l.startswith('R '):
+                hist['piece returned'] += 1
+        nt = plain.shape['run(until=event)'] + plain.shape['run(until=number)'] > 0 and rt.clk.nsleep > 0
+        nontriv += int(nt)
+        if nt and len(samples) < 1 and len(rt.lines) < 50 and plain.shape['late waiter: a process starts to wait for the until-event after run(until=event) was entered']:
+            samples.append({'case': c, 'rt_trace': rt.lines[:50]})
+        seen_sig = set()
+        for f_ in fails:
+            if f_['signature'] in seen_sig:
+                continue
+            seen_sig.add(f_['signature'])
+            f_['case'] = c
+            f_['trace'] = {'rt': rt.lines[:300], 'plain': plain.lines[:300]} if len(orc) < 25 else {}
+            orc.append(f_)
+    cov = {'evaluations': len(cases), 'distinct_nontrivial': nontriv, 'oracle_only': True, 'trace_lines_compared': lines,
+           'rule': 'ORACLE-ONLY (outside the Lean replay): a sample of all shapes of the kernel program generator of C01-C07, driven by kscript.Runner.run() '
+                   '(step() to exhaustion, or a split plan of run(until=number) / run(until=event) / step() pieces followed by run()), on Environment and on '
+                   'RealtimeEnvironment under a wall clock that is never late; non-trivial = the plan contains a run(until=...) piece and the paced run slept',
+           'samples': samples, 'operation_histogram': dict(sorted(hist.items()))}
+    return cov, orc
+
+
+# ------------------------------------------------------------------------------------------------
 # oracle 2: the pacing rules, from the recorded clock
 
 def oracle_pacing(case, rec, stats):
@@ -813,9 +1002,11 @@ def run(ctx):
     rng_u = random.Random(f'C20-until-{ctx.seed}')
     if ctx.replay:
         until_cases = [c for c in cases if c.get('family') == 'until']
-        cases = [c for c in cases if c.get('family') != 'until']
+        span_cases = [c for c in cases if c.get('family') == 'span']
+        cases = [c for c in cases if c.get('family') not in ('until', 'span')]
     else:
         until_cases = [gen_until(rng_u, f'u{i}') for i in range(400 if ctx.quick else 8000)]
+        span_cases = gen_span(random.Random(f'C20-span-{ctx.seed}'), 1500 if ctx.quick else 30000)
     for i, c in enumerate(cases):
         c['cid'] = str(i)
     disagreements, oracle_failures = [], []
@@ -853,7 +1044,9 @@ def run(ctx):
     }
     ucov, uorc = run_until_family(ctx, until_cases)
     cov['run_until_family_oracle_only'] = ucov       # counted apart: not part of `evaluations` / the correspondence
-    return {'coverage': cov, 'disagreements': disagreements, 'oracle_failures': oracle_failures + uorc}
+    scov, sorc = run_span_family(ctx, span_cases)
+    cov['kernel_span_family_oracle_only'] = scov     # counted apart as well
+    return {'coverage': cov, 'disagreements': disagreements, 'oracle_failures': oracle_failures + uorc + sorc}
 
 
 def kernel_is_the_cause(rt_kernel, plain, model_lines):
